@@ -18,7 +18,8 @@ Props/C14 show that for 0 ≤ d ≤ MaxInt64 no intermediate value leaves the in
 
 Timing assumptions (the *partial* part of C14): `time.Sleep(clockPeriod)` followed by re-taking the
 mutex returns after at least `period` and at most `period + eps`; `eps` is a parameter.  The three
-critical sections of makeDeadline/extendClock are executed as one atomic event.
+critical sections of makeDeadline/extendClock are executed as one atomic event in this file;
+Model/ClockConc.lean executes them step by step under arbitrary interleaving.
 -/
 namespace RegexVerif.Clock
 
@@ -113,7 +114,7 @@ def makeDeadline (p : Params) (s : State) (d : Int) : State × Int :=
   let e := s.current + deadlineTicks p.period d
   if e > s.clockEnd then
     let s1 := refresh s
-    let e1 := if !s.running && s.started then s1.current + deadlineTicks p.period d else e
+    let e1 := s1.current + deadlineTicks p.period d
     (extendClock p s1 e1, e1)
   else (s, e)
 
